@@ -24,6 +24,7 @@ Next ==
   /\ LET e == Trace[l] IN
      CASE e.op = "pop"   -> stack' = SubSeq(stack, 1, Len(stack) - 1)
        [] e.op = "reset" -> stack' = <<Empty>>
+       [] e.op = "hang"  -> UNCHANGED stack /\ Chk(FALSE, "c12_storage_call_did_not_return")   \* no line for 30 s: a lock the log kept
        [] OTHER ->
           LET r  == IF e.op = "clear" THEN [res |-> TRUE, st |-> ClearR(Top, e.h)] ELSE StoreR(Top, e.k, MsgOf(e))
               st == r.st
